@@ -44,6 +44,8 @@ import (
 const (
 	ChainID   = "verif-1"
 	BondDenom = "ugrain"
+	// ConsensusStore is the store key of paloma's consensus-queue module (NOT "consensus", which is the SDK consensus-params store).
+	ConsensusStore = "palomaconsensus"
 )
 
 var sealOnce sync.Once
@@ -421,6 +423,13 @@ func Protect(f func() error) (err error, panicked bool) {
 func (w *World) StoreDigest(ctx sdk.Context, stores ...string) string {
 	h := sha256.New()
 	for _, s := range stores {
+		if s == "consensus" {
+			// the SDK consensus-params store: almost certainly not what a check wants
+			panic(`store "consensus" is the SDK consensus-params store; paloma's queue store is "palomaconsensus" (world.ConsensusStore); use "consensus-params" if you really mean the SDK one`)
+		}
+		if s == "consensus-params" {
+			s = "consensus"
+		}
 		k := w.App.GetKey(s)
 		if k == nil {
 			panic("no store " + s)
